@@ -35,25 +35,27 @@ func (u *UnwrapPlanner) processSimple(ctx *shared.PlannerContext, main sql.ISele
 	}
 	label := u.Label
 
+	// the text that is unwrapped: the value of the label or the line itself
+	unwrapped := sql.NewCustomCol(func(ctx *sql.Ctx, options ...int) (string, error) {
+		if u.Label == "_entry" {
+			return strCol.String(ctx, options...)
+		}
+		strLabels, err := labels.String(ctx, options...)
+		if err != nil {
+			return "", err
+		}
+		val, err := sql.NewStringVal(label).String(ctx, options...)
+		if err != nil {
+			return "", err
+		}
+		return fmt.Sprintf("%s[%s]", strLabels, val), nil
+	})
+
 	sel, err := patchCol(sel, "value", func(object sql.SQLObject) (sql.SQLObject, error) {
 		return sql.NewCustomCol(func(ctx *sql.Ctx, options ...int) (string, error) {
-			var strLabel string
-			if u.Label != "_entry" {
-				strLabels, err := labels.String(ctx, options...)
-				if err != nil {
-					return "", err
-				}
-				val, err := sql.NewStringVal(label).String(ctx, options...)
-				if err != nil {
-					return "", err
-				}
-				strLabel = fmt.Sprintf("%s[%s]", strLabels, val)
-			} else {
-				var err error
-				strLabel, err = strCol.String(ctx, options...)
-				if err != nil {
-					return "", err
-				}
+			strLabel, err := unwrapped.String(ctx, options...)
+			if err != nil {
+				return "", err
 			}
 			return fmt.Sprintf("toFloat64OrZero(%s)", strLabel), nil
 		}), nil
@@ -62,7 +64,8 @@ func (u *UnwrapPlanner) processSimple(ctx *shared.PlannerContext, main sql.ISele
 		return nil, err
 	}
 
-	return main.Select(sel...), nil
+	// an entry whose label does not hold a number has no value to aggregate
+	return main.Select(sel...).AndWhere(&notNull{&toFloat64OrNull{unwrapped}}), nil
 }
 
 func (u *UnwrapPlanner) processTimeSeries(ctx *shared.PlannerContext, main sql.ISelect) (sql.ISelect, error) {
